@@ -301,9 +301,24 @@ impl<'buf> ModuleReader<'buf> {
             (None, _, _) | (_, None, _) => Err(Error::NoDynStrSection),
             (_, _, None) => Err(Error::NoSoNameEntry),
             (Some(addr), Some(size), Some(offset)) => {
-                // If loaded in memory, the address will be altered to be absolute.
                 if offset < size {
-                    self.read_name_from_strtab(self.module_memory.absolute(addr), size, offset)
+                    let strtab_offset = if self.module_memory.is_process_memory() {
+                        // If loaded in memory, the address will be altered to be absolute.
+                        self.module_memory.absolute(addr)
+                    } else {
+                        // In a file, the virtual address has to be translated to a file offset
+                        // (if no loaded segment contains it, assume it already is one).
+                        program_headers
+                            .iter()
+                            .find(|h| {
+                                h.p_type == elf::program_header::PT_LOAD
+                                    && h.p_vaddr <= addr
+                                    && addr - h.p_vaddr < h.p_filesz
+                            })
+                            .and_then(|h| (addr - h.p_vaddr).checked_add(h.p_offset))
+                            .unwrap_or(addr)
+                    };
+                    self.read_name_from_strtab(strtab_offset, size, offset)
                 } else {
                     log::warn!("soname strtab offset ({offset}) exceeds strtab size ({size})");
                     Err(Error::NoSoNameEntry)
